@@ -176,9 +176,12 @@ def check(rep, pid, tier, seed):
     for c, p in exact_configs(m, cfgs):
         rep.violation("C17 %s" % p, dict(mode="exact", cfg=list(c)), key=p[:30])
     preds = numeric_predicates(m, seed)
-    for name, holds, detail in preds:
-        if not holds:
-            rep.violation("C17 numeric predicate %s does not hold: %s" % (name, detail), dict(mode="numeric", name=name, seed=seed), key=name)
+    rounds = [(seed, preds)] + ([(seed + 1000 * k, numeric_predicates(m, seed + 1000 * k)) for k in range(1, 25)] if tier == "thorough" else [])
+    for sd_, pr_ in rounds:
+        for name, holds, detail in pr_:
+            if not holds:
+                rep.violation("C17 numeric predicate %s does not hold: %s" % (name, detail), dict(mode="numeric", name=name, seed=sd_), key=name)
+    rep.extra["numeric_predicate_rounds"] = len(rounds)
     rep.extra["numeric_predicates"] = [dict(name=n, holds=bool(h), detail=d) for n, h, d in preds]
     rep.traces += len(cfgs)
     rep.evaluations += len(cfgs) + len(preds)
